@@ -109,7 +109,12 @@ def build_chain(spec):
     elif shape == "manytx":
         for _ in range(3):
             cb.add_block(n_tx=rng.randint(150, 600))
-    return cb.chain(), widths
+    chain = cb.chain()
+    if shape in ("long", "segwit", "manytx") and spec["n"] % 2 == 0:
+        # records longer than their block (the stored length prefix also covers bytes behind the block): blocksize is the stored
+        # prefix, every other field is the block's
+        gen.add_slack(rng, chain, coin, share=0.4)
+    return chain, widths
 
 
 def case(spec):
